@@ -168,6 +168,20 @@ func (ex *Exec) binop(fr *frame, op token.Token, t types.Type, x, y Value) Value
 	switch {
 	case ut.Info()&types.IsString != 0:
 		a, b := strTerm(x), strTerm(y)
+		if op != token.ADD && ex.w.cfg.StrOrder != "lex" {
+			// string order abstracted to an arbitrary total order (see rankOf)
+			ra, rb := ex.rankOf(a), ex.rankOf(b)
+			switch op {
+			case token.LSS:
+				return simplify(TLt(ra, rb))
+			case token.LEQ:
+				return simplify(TLe(ra, rb))
+			case token.GTR:
+				return simplify(TLt(rb, ra))
+			case token.GEQ:
+				return simplify(TLe(rb, ra))
+			}
+		}
 		switch op {
 		case token.ADD:
 			return simplify(TConcat(a, b))
@@ -769,6 +783,53 @@ func (ex *Exec) rangeIter(fr *frame, x Value, t types.Type) iter {
 		ex.inconclusive("range over opaque: " + x.Why)
 	}
 	panic(fmt.Sprintf("cannot range over %T", x))
+}
+
+// rankOf abstracts the lexicographic order of strings (str.< is very slow in the
+// solvers) to an arbitrary total order: every compared string term gets an integer rank
+// with (s = t) <=> (rank s = rank t); constants keep their real relative order. This is
+// an over-approximation (more orders than the real one); counterexamples are confirmed
+// natively, where the real order applies.
+func (ex *Exec) rankOf(t *Term) *Term {
+	key := t.String()
+	if r, ok := ex.ranks[key]; ok {
+		return r.rank
+	}
+	if ex.ranks == nil {
+		ex.ranks = map[string]*rankEntry{}
+	}
+	name := "rank#" + strconv.Itoa(len(ex.ranks))
+	r := TSymIntRange(name, 0, 1<<20)
+	ex.symMap[name] = r
+	ex.model[name] = int64(0)
+	ex.addPC(mk("<=", SBool, TInt(0), r))
+	ex.addPC(mk("<=", SBool, r, TInt(1<<20)))
+	for _, k := range ex.rankOrder {
+		o := ex.ranks[k]
+		eq := TEq(t, o.term)
+		if eq.IsConst() {
+			if eq.B {
+				ex.addPC(TEq(r, o.rank))
+			} else if t.IsConst() && o.term.IsConst() {
+				if t.S < o.term.S {
+					ex.addPC(TLt(r, o.rank))
+				} else {
+					ex.addPC(TLt(o.rank, r))
+				}
+			} else {
+				ex.addPC(TNot(TEq(r, o.rank)))
+			}
+			continue
+		}
+		ex.addPC(TEq(eq, TEq(r, o.rank)))
+	}
+	ex.ranks[key] = &rankEntry{term: t, rank: r}
+	ex.rankOrder = append(ex.rankOrder, key)
+	return r
+}
+
+type rankEntry struct {
+	term, rank *Term
 }
 
 // termToValue converts a constant term to the concrete representation for type t.
